@@ -73,3 +73,12 @@ Proof.
   intros prec emax Hprec Hmax lib r U d k v St y t1 t2 S1 S2.
   exact (roundtrip_relerr prec emax Hprec Hmax lib U d k y S1 S2).
 Qed.
+
+(* ---- the five rounding methods of the source are `Self::new::<N>(self.get::<N>().<the same rounding>())`
+   (Gen/DelegSrc.v is regenerated from src/quantity.rs on every run): the model's q_round with the storage type's own function ---- *)
+From Coq Require Import String.
+From UomV Require Import Model.DelegSrc Gen.DelegSrc Spec.DelegTie.
+Theorem c16_rounding_sources_are_new_of_rounded_get :
+  forallb (fun e => negb (String.eqb (dl_file e) "src/quantity.rs") || deleg_ok e) src_delegations = true
+  /\ covers src_delegations "src/quantity.rs" (["new"%string; "get"%string] ++ rounding_fns)%list = true.
+Proof. split; vm_compute; reflexivity. Qed.
